@@ -45,6 +45,13 @@ class KillProxy:
     def cursor(self):
         return KillProxy(self._inner.cursor(), self._st)
 
+    def __enter__(self):
+        self._inner.__enter__()
+        return self
+
+    def __exit__(self, *a):
+        return self._inner.__exit__(*a)
+
     def __getattr__(self, name):
         return getattr(self._inner, name)
 
@@ -83,6 +90,13 @@ def run_history(connect, hist, log, st=None):
                         raise
                     except Exception:  # noqa: BLE001
                         pass
+                if st is not None:
+                    st["silent"] = False
+            elif k == 9:        # not in the model: DDL inside a transaction that is rolled back leaves nothing - no table, no metadata - and removes nothing
+                if st is not None:
+                    st["silent"] = True
+                for q in ("begin", "create table db1.s1.ghost (v varchar(7)) comment = 'ghost'", "drop table db1.s1.t", "rollback"):
+                    conn.cursor().execute(q)
                 if st is not None:
                     st["silent"] = False
             elif k == 7:        # not in the model: a sized VARCHAR column (metadata must survive a clean exit)
